@@ -288,8 +288,9 @@ theorem shape_ok :
     Gen.C36.tokenOnlyUsedByGuards = true ∧ Gen.C36.refuseShapeOk = true ∧
     Gen.C36.readSteps = ["length", "declared_length", "read_bounded", "read_length", "json", "dict", "get_token",
       "str_nonempty_maxlen", "encodable", "return"] ∧
-    Gen.C36.disabledShapeOk = true ∧ Gen.C36.disabledReadsRequest = false ∧ Gen.C36.wiringOk = true := by
-  refine ⟨by rfl, by rfl, by rfl, by rfl, by rfl, by rfl, by rfl, by rfl⟩
+    Gen.C36.disabledShapeOk = true ∧ Gen.C36.disabledReadsRequest = false ∧ Gen.C36.wiringOk = true ∧
+    Gen.C36.limiterShapeOk = true ∧ Gen.C36.limiterWindowTicks = 1024 := by
+  refine ⟨by rfl, by rfl, by rfl, by rfl, by rfl, by rfl, by rfl, by rfl, by rfl, by rfl⟩
 
 /-- `_JWS_SHAPED.match(token)` holds exactly for three dot-separated base64url segments, optionally followed by
 one newline (`$`); in particular every JWS-shaped subject is caught. -/
@@ -517,6 +518,56 @@ theorem C36_statuses (cfg : Cfg) (c : Caller) (rq : Req) (res : Resolver) :
             | unavailable d ra => simp
             | raises => simp [crash]
 
+/-! ### request sequences: the rate limiter's state never stands between a refused caller and its 403 -/
+
+/-- the limiter is consulted exactly for authorised callers (the allow-list guard precedes it in the extracted order) -/
+theorem Aux.reaches_eq (allow : List (List Char)) (c : Caller) (rq : Req) (res : Resolver) :
+    reachesLimiter ⟨allow, true⟩ c rq res Gen.C36.guards ⟨⟨false, 0⟩, none, none⟩
+      = !(!c.authenticated || !allow.contains c.principal) := by
+  simp only [Gen.C36.guards, reachesLimiter, step]
+  cases hb : (!c.authenticated || !allow.contains c.principal) <;> simp
+
+/-- Whatever the limiter's state — i.e. after *any* history of requests, at any time — a caller outside the allow-list
+gets the 403, the body is not read, the resolver is not consulted, and the limiter is neither consulted nor changed
+(a refused caller cannot use up anybody's budget, and no burst turns its 403 into a 429). -/
+theorem C36_403_any_state (allow : List (List Char)) (perWindow : Nat) (lim : LimState) (now : Int) (c : Caller)
+    (rq : Req) (res : Resolver) (h : ¬ Authorized ⟨allow, true⟩ c) :
+    serve allow perWindow lim now c rq res = (lim, (forbidden403, ⟨false, 0⟩)) := by
+  have hb : (!c.authenticated || !allow.contains c.principal) = true := by
+    cases hb : (!c.authenticated || !allow.contains c.principal) with
+    | true => rfl
+    | false => exact absurd ((authorized_iff ⟨allow, true⟩ c).1 hb) h
+  unfold serve
+  rw [Aux.reaches_eq, hb]
+  simp only [Bool.not_true, Bool.false_eq_true, if_false]
+  rw [C36_403 ⟨allow, true⟩ c rq res h]
+
+/-- … hence in every history (any length, any interleaving of callers, any clock) every request of a caller outside
+the allow-list is answered 403. -/
+theorem C36_403_history (allow : List (List Char)) (perWindow : Nat) :
+    ∀ (es : List Event) (lim : LimState) (i : Nat) (e : Event), es[i]? = some e → ¬ Authorized ⟨allow, true⟩ e.caller →
+      (serveAll allow perWindow lim es)[i]? = some (forbidden403, ⟨false, 0⟩)
+  | [], _, _, _, h, _ => by simp at h
+  | e₀ :: es, lim, 0, e, h, hna => by
+    simp only [List.getElem?_cons_zero, Option.some.injEq] at h
+    subst h
+    simp only [serveAll, List.getElem?_cons_zero]
+    rw [C36_403_any_state allow perWindow lim e₀.now e₀.caller e₀.rq e₀.res hna]
+  | e₀ :: es, lim, i + 1, e, h, hna => by
+    simp only [List.getElem?_cons_succ] at h
+    simp only [serveAll, List.getElem?_cons_succ]
+    exact C36_403_history allow perWindow es _ i e h hna
+
+/-- An authorised caller's request is the guarded endpoint with the limiter's decision for (caller, now); so every
+guard theorem above applies to each request of a history for which the limiter allows. -/
+theorem C36_serve_authorized (allow : List (List Char)) (perWindow : Nat) (lim : LimState) (now : Int) (c : Caller)
+    (rq : Req) (res : Resolver) (h : Authorized ⟨allow, true⟩ c) :
+    serve allow perWindow lim now c rq res
+      = ((lim.allow perWindow c.principal now).1, onPost ⟨allow, (lim.allow perWindow c.principal now).2⟩ c rq res) := by
+  unfold serve
+  rw [Aux.reaches_eq, (authorized_iff ⟨allow, true⟩ c).2 h]
+  simp
+
 /-! ### non-vacuity -/
 
 private def cfg0 : Cfg := ⟨["proxy".toList], true⟩
@@ -540,6 +591,9 @@ example : (onPost cfg0 proxy (rq0 "down") res0).1.status = 503 := by decide
 example : (onPost cfg0 proxy (rq0 "a.b.c") res0) = (unresolved404, ⟨true, 0⟩) := by decide
 example : (onPost cfg0 proxy (rq0 "a.b.c\n") res0) = (unresolved404, ⟨true, 0⟩) := by decide
 example : JwsShaped "a.b.".toList := ⟨['a'], ['b'], [], rfl, by simp, by simp, by simp [B64Url], by simp [B64Url], by simp⟩
+example : ((serveAll cfg0.allow 1 LimState.fresh
+    [⟨5000, proxy, rq0 "known", res0⟩, ⟨5001, proxy, rq0 "known", res0⟩, ⟨5002, ⟨true, "mallory".toList⟩, rq0 "known", res0⟩,
+     ⟨6100, proxy, rq0 "known", res0⟩]).map (·.1.status)) = [200, 429, 403, 200] := by decide
 example : classOf (rq0 "known") = classOf (rq0 "other") ∧ classOf (rq0 "a.b.c") = .jws := by decide
 
 end VgiVerif.C36
